@@ -110,7 +110,7 @@ def main(run):
                 "values, random, in value types {int,float,np.float64,np.float32,np.int64,Q}; get_normalized_importance_values "
                 "('sum','delta') judged against exact quotients: ratios, sum 1 / range 1, zero normaliser -> all 0.0, never NaN/inf, "
                 "NumPy FP-exception recorder silent; (ii) every state reached by PFI/SAGE streams: variances >= 0 and "
-                "get_confidence_bound(delta) for delta in {1e-6,.01,.5,1} equal to (1-alpha)^t + sqrt(var*alpha/((2-alpha)*delta)), "
+                "get_confidence_bound(delta) for delta near {1e-6,.01,.5,1} given as float / np.float32 / np.float16 / Fraction / int / np.int64 / bool, equal to (1-alpha)^t + sqrt(var*alpha/((2-alpha)*delta)), "
                 "finite, >= 0 (> 0 when (1-alpha)^t is a normal float), non-increasing in delta; evaluations = oracle evaluations; "
                 "non-trivial = distinct (type, mode-relevant shape of the dictionary) and distinct reached states")
     run.assumptions = ["non-empty importance dictionary (>= 1 explained observation)",
@@ -220,7 +220,11 @@ def main(run):
                 break
             prev = None
             okb = True
-            for delta in (1e-6, 0.01, 0.5, 1):
+            # delta in several numeric forms (narrow NumPy floats, rationals, integers): the bound is the formula's value at that number
+            from fractions import Fraction as _Fr
+            deltas = [rnd.choice([1e-6, np.float32(1e-6), np.float64(1e-6)]), rnd.choice([0.01, np.float32(0.01), np.float16(0.01), _Fr(1, 100)]),
+                      rnd.choice([0.5, np.float32(0.5), np.float16(0.3), _Fr(1, 3)]), rnd.choice([1, 1.0, np.int64(1), np.float32(1.0), True])]
+            for delta in deltas:
                 try:
                     cb = e.get_confidence_bound(delta)
                 except Exception as ex:
@@ -230,7 +234,7 @@ def main(run):
                 run.ok(kind="confidence-bound")
                 for n in sc.names:
                     base = (1 - alpha) ** e.seen_samples
-                    want = base + math.sqrt(float(var[n]) * alpha / ((2 - alpha) * delta))
+                    want = base + math.sqrt(float(var[n]) * alpha / ((2 - alpha) * float(delta)))
                     g = cb[n]
                     if not (finite(g) and float(g) >= 0 and abs(float(g) - want) <= 1e-12 * max(1.0, abs(want))
                             and (float(g) > 0 or base < 2.3e-308)):
